@@ -443,8 +443,8 @@ def _part_i(task, rec):
 ALGOS = ['automatic', 'scipy', 'LS-newton', 'TR-newton', 'LS-BFGS', 'TR-BFGS', 'simple_bounds',
          'simple_bounds_newton', 'simple_bounds_BFGS']
 INT_ALPHABETS = [[0, 1, 2, 100], [0, 3, 7, 1000], [1, 5, 64, 2 ** 31], [2, 10, 99, 10 ** 12]]
-FLOAT_ALPHABETS = [[1e-5, 0.5, 1.0, 1e3, 1], [0.1, 1.0 / 3.0, 2.5e-7, 1.0, 10], [1e-300, 0.999, 123456789.12345678, 1.0, 2],
-                   [5e-324, 0.25, 1e16, 0.7, 1000]]
+FLOAT_ALPHABETS = [[1e-5, 0.5, 1.0, 1e3, 1, 0.12345678901234568], [0.1, 1.0 / 3.0, 2.5e-7, 1.0, 10], [1e-300, 0.999, 123456789.12345678, 1.0, 2],
+                   [5e-324, 0.25, 1e16, 0.7, 1000, 2.0 / 3.0]]
 UNSIGNED_EXTRA = [[-1.0, -0.0], [-2.5, 0.0], [-1e-7, -0.0], [-100.0, 0.0]]
 VERSION_STRINGS = ['3.2.14', '', 'a "quoted" \\ back', "it's # not a comment", 'é€β', 'two\nlines', ' lead and trail ',
                    'True', '[Section]', 'x = 1']
@@ -1242,7 +1242,7 @@ class History:
             if type(e).__name__ == 'ValueError' and 'Comment cannot contain line breaks' in str(e):
                 return ('toml-dump-raises-ValueError', 'Comment cannot contain line breaks',
                         f'{op} raised {type(e).__name__}: {e}')
-            return (f'history-step-raises-{type(e).__name__}', f'op={op},root={self.root}',
+            return (f'history-step-raises-{type(e).__name__}', f'op={op}',
                     f'{op} raised {type(e).__name__}: {msg}')
         after = snapshot()
         for nm in handed:
@@ -1255,22 +1255,22 @@ class History:
             if k in transient:
                 continue
             if after.get(k) != v:
-                return ('existing-entry-changed', f'op={op},root={self.root},entry={_ext(k)}:{v[0]}',
+                return ('existing-entry-changed', f'op={op},entry={_ext(k)}:{v[0]}',
                         f'{k!r} was {v}, is {after.get(k)} after {op}')
         created = sorted(k for k in after if k not in before and k not in transient)
         # 2. reported names are new regular files
         for nm in reported or []:
             if nm in before:
-                return ('reported-name-existed', f'op={op},root={self.root},entry={_ext(nm)}:{before[nm][0]}',
+                return ('reported-name-existed', f'op={op},entry={_ext(nm)}:{before[nm][0]}',
                         f'{op} reported {nm!r}, which existed before as {before[nm]}')
             if after.get(nm, ('', ''))[0] != 'file':
-                return ('reported-name-not-written', f'op={op},root={self.root}', f'{op} reported {nm!r}; directory {sorted(after)}')
+                return ('reported-name-not-written', f'op={op}', f'{op} reported {nm!r}; directory {sorted(after)}')
         # 3. the directory is the one the reference predicts
         if created != sorted(want_new):
-            return ('directory-differs-from-reference', f'op={op},root={self.root}',
+            return ('directory-differs-from-reference', f'op={op}',
                     f'{op} created {created}, reference model predicts {sorted(want_new)} (before: {sorted(before)})')
         if reported is not None and sorted(reported) != created and op != 'validate':
-            return ('reported-names-differ-from-created', f'op={op},root={self.root}', f'{reported} vs {created}')
+            return ('reported-names-differ-from-created', f'op={op}', f'{reported} vs {created}')
         # 4. what was written reads back
         m = MODEL_NAME
         for nm in created:
@@ -1307,7 +1307,8 @@ class History:
                     chosen = [p for p in had_pickles if _same_pickle(p, obj)]
                     fresh_written = latest in self.written
                     return ('recycle-not-the-latest-results',
-                            f'root={self.root},latest-written-by-history={fresh_written}',
+                            f'latest-is-last-by-name={latest == sorted(had_pickles)[-1]},'
+                            f'latest-written-by-history={fresh_written}',
                             f'estimate(recycle=True) returned the results of {chosen} instead of the most recent '
                             f'{latest!r} (pickles in write order: {had_pickles})')
             else:
